@@ -1162,7 +1162,9 @@ func (k *Kernel) checkVotingPrecommitViewShift(ctx context.Context, s *kState) e
 
 // saveCurrentCommittingHeader saves s.CommittingHeader to the header store.
 func (k *Kernel) saveCurrentCommittingHeader(ctx context.Context, s *kState) error {
-	proof := s.Voting.PrevCommitProof
+	// Clone the proof: the voting view's PrevCommitProof map is cleared and reused
+	// when the view is later reset, and a store may retain the value it is given.
+	proof := s.Voting.PrevCommitProof.Clone()
 
 	// TODO: gassert: confirm the voting proof is sufficient.
 
